@@ -216,13 +216,17 @@ func (s *Solver) Check(asserts []*Term, wantModel bool, intVars bool) (Result, M
 }
 
 func getValueCmd(sc *Script) string {
-	if len(sc.Vars) == 0 {
+	if len(sc.Vars)+len(sc.UFVars) == 0 {
 		return ""
 	}
 	var sb strings.Builder
 	sb.WriteString("(get-value (")
 	for _, v := range sc.Vars {
 		sb.WriteString(smtName(v.Name))
+		sb.WriteByte(' ')
+	}
+	for _, v := range sc.UFVars {
+		sb.WriteString(smtName(v.ufVarName()))
 		sb.WriteByte(' ')
 	}
 	sb.WriteString("))\n")
@@ -250,7 +254,7 @@ func (s *Solver) checkScript(sc *Script, wantModel, intVars bool) (Result, Model
 	} else if sc.HasReal {
 		plan = []attempt{{"z3", s.TimeoutMS, ""}, {"cvc5", s.TimeoutMS, ""}}
 	} else {
-		plan = []attempt{{"z3", s.TimeoutMS, ""}, {"z3-new", s.TimeoutMS, ""}, {"cvc5", s.TimeoutMS, ""}}
+		plan = []attempt{{"z3-new", s.TimeoutMS, ""}, {"z3", s.TimeoutMS, ""}, {"cvc5", s.TimeoutMS, ""}}
 	}
 	for _, a := range plan {
 		r, m, errd := s.runOne(a.solver, sc, a.ms, a.tactic, wantModel)
@@ -393,6 +397,9 @@ func parseModel(out string, sc *Script) Model {
 	for _, v := range sc.Vars {
 		sorts[v.Name] = v
 	}
+	for _, v := range sc.UFVars {
+		sorts[v.ufVarName()] = v
+	}
 	var pairs []*sexp
 	for _, t := range top {
 		if t.isL {
@@ -444,6 +451,59 @@ func parseValue(e *sexp, so Sort) (Val, bool) {
 		r, ok := parseRat(e)
 		if ok {
 			return Val{R: r}, true
+		}
+	case KFP:
+		return parseFP(e)
+	}
+	return Val{}, false
+}
+
+func parseFP(e *sexp) (Val, bool) {
+	if !e.isL || len(e.list) == 0 {
+		return Val{}, false
+	}
+	switch e.list[0].atom {
+	case "fp":
+		if len(e.list) != 4 {
+			return Val{}, false
+		}
+		var bits uint64
+		for _, part := range e.list[1:] {
+			a := part.atom
+			var u uint64
+			var n int
+			var err error
+			switch {
+			case strings.HasPrefix(a, "#b"):
+				u, err = strconv.ParseUint(a[2:], 2, 64)
+				n = len(a) - 2
+			case strings.HasPrefix(a, "#x"):
+				u, err = strconv.ParseUint(a[2:], 16, 64)
+				n = 4 * (len(a) - 2)
+			default:
+				return Val{}, false
+			}
+			if err != nil {
+				return Val{}, false
+			}
+			bits = bits<<uint(n) | u
+		}
+		return Val{F: math.Float64frombits(bits)}, true
+	case "_":
+		if len(e.list) < 2 {
+			return Val{}, false
+		}
+		switch e.list[1].atom {
+		case "NaN":
+			return Val{F: math.NaN()}, true
+		case "+oo":
+			return Val{F: math.Inf(1)}, true
+		case "-oo":
+			return Val{F: math.Inf(-1)}, true
+		case "+zero":
+			return Val{F: 0}, true
+		case "-zero":
+			return Val{F: math.Copysign(0, -1)}, true
 		}
 	}
 	return Val{}, false
